@@ -57,6 +57,15 @@ def relayTargets (k : Nat) (ms : List Member) (self : String) (picks : List Nat)
   else if ms.length < k + 1 then []
   else kRandomMembers k ms (ineligible self) picks
 
+/-- `relayTargets` with the guard of `relayResponse` as a parameter: `minMembers k` is the least member
+count for which relaying proceeds (translated from the source into `SerfModel.Gen.RelayGuard`, with Go's
+integer typing — a uint8 addition wraps), `zeroReturns` says whether `relayFactor == 0` returns at once. -/
+def relayTargetsG (minMembers : Nat → Nat) (zeroReturns : Bool) (k : Nat) (ms : List Member) (self : String)
+    (picks : List Nat) : List Member :=
+  if zeroReturns && k == 0 then []
+  else if ms.length < minMembers k then []
+  else kRandomMembers k ms (ineligible self) picks
+
 /-- Destinations of a reply: the origin first, then the relays. -/
 inductive Dest where
   | origin
